@@ -508,6 +508,9 @@ class DAGRunConcurrentManager(DAGRunManagerLike):
                 # We must unlock descendants because the next OneOf subgraph should start the process.
                 # Otherwise, the entire subgraph will be locked.
                 await self.__unlock_descendants(node_id)
+
+                # The owner of the subgraph waits on the destination node, which can be several hops below
+                await self.__unlock_itself(dag.dest)
                 return None
 
             if self._is_switch(node_id):
